@@ -50,6 +50,7 @@ def run(cases):
             m["export"] = rs[0]["export"]
             m["shas"] = [x["export_sha"] for x in rs]
             m["eval_shas"] = [x["eval_sha"] for x in rs]
+            m["agg_shas"] = [x.get("agg_sha") for x in rs]
         else:
             m["exc"] = next((x.get("exc") for x in rs if not x.get("ok")), "?")
         merged.append(m)
@@ -78,6 +79,7 @@ def emit(pairs):
         spec = [0 if f else 1 for f in flags]
         spec.append(0 if len(set(imp["shas"])) == 1 else 1)          # exported document identical in every process
         spec.append(0 if len(set(imp["eval_shas"])) == 1 else 1)
+        spec.append(0 if len(set(imp["agg_shas"])) == 1 else 1)      # ... and so is the exported aggregated document
         lines.append(f"Definition r{k} : routine := {H.routine_to_coq(case['routine'])}.")
         orders = []
         child_orders(imp["export"]["program"], orders)
